@@ -256,6 +256,12 @@ func runPlan(res *vkit.Result, p Plan) {
 			return
 		}
 	}
+	// what every pool had fired when Engine.Run returned (the engine stops all pools before it
+	// reports the failure of one)
+	var shotsAtReturn []int64
+	for _, pm := range pms {
+		shotsAtReturn = append(shotsAtReturn, pm.plan.ShotCount())
+	}
 	// ---- outcome ----
 	fired := false
 	for _, pm := range pms {
@@ -303,7 +309,8 @@ func runPlan(res *vkit.Result, p Plan) {
 	if fired {
 		res.Count("faults_fired", 1)
 	}
-	cancel()
+	// the caller cancels nothing of its own after a failed or finished run: stopping the pools
+	// is the engine's business (a cancelled plan has been cancelled above already)
 	// ---- termination ----
 	wdone := make(chan struct{})
 	go func() { eng.Wait(); close(wdone) }()
@@ -314,6 +321,12 @@ func runPlan(res *vkit.Result, p Plan) {
 		return
 	}
 	for i, pm := range pms {
+		// a healthy neighbour of a failed pool is stopped by the engine, not left to run to the
+		// end of its own profile: once Engine.Run has returned, an instance can finish the shot
+		// it is in and at most one more that it had already been cleared for (counted, not timed)
+		if extra := pm.plan.ShotCount() - shotsAtReturn[i]; outcome != "nil" && i != p.FaultPool && extra > int64(3*p.Instances+2) {
+			fail("neighbour-pool-not-stopped", "pool %d fired %d more shots with %d instances after Engine.Run had returned %q", i, extra, p.Instances, err)
+		}
 		if s, r := pm.prov.RunStart.Load(), pm.prov.RunReturn.Load(); s != r {
 			fail("provider-running", "pool %d: provider Run started %d returned %d after Wait()", i, s, r)
 		}
